@@ -468,7 +468,11 @@ type sdoc struct {
 var messages = []string{"", "hello world", "Hello there", "world of hello kitty", "goodbye", "hello", "error: disk full", "Disk is FULL"}
 var uris = []string{"", "/api/v1/users", "/api/v1/orders/7", "/api/v2", "/health"}
 
+var longPrefix = strings.Repeat("t", 72)
+
 var queryPool = []string{
+	`trace_id:"` + strings.Repeat("t", 72) + `a0"`, `trace_id:"` + strings.Repeat("t", 72) + `a1"`, `trace_id:"` + strings.Repeat("t", 72) + `b0"`,
+	`trace_id:"` + strings.Repeat("t", 72) + `a*"`,
 	`service:a`, `_all_:*`, `_all_:*`,
 	`message:"hello world"`, `message:"world hello"`, `message:"Hello World"`, `message:hello`, `message:"disk full"`,
 	`message:"hello there"`, `service:a and message:"hello world"`, `not message:"hello world"`, `message:"hello kitty" or message:goodbye`,
@@ -521,6 +525,8 @@ func docTokens(d sdoc) ([]byte, []seq.Token) {
 	if !hasAll {
 		toks = append(toks, seq.Token{Field: []byte(seq.TokenAll), Val: []byte{}})
 	}
+	// a keyword value longer than the default token size (72 bytes), sharing its first 72 bytes with the others
+	toks = append(toks, seq.Token{Field: []byte("trace_id"), Val: []byte(longPrefix + d.svc + fmt.Sprint(uint64(d.id.RID)%2))})
 	return []byte(body), toks
 }
 
